@@ -25,10 +25,12 @@ CLAIMED = {
     "C15": dict(
         text="Coq theorems over the mirrors of the lexical helpers, for all strings: trim_prefix/trim_suffix inverse and identity laws, "
              "ext/trim_ext split (outside the recorded class KF-C15-ext, with a refutation witness inside it), name = base minus "
-             "extension, mash components / containment / rendering, has* = string containment, concat, parse_paths. Every helper is "
-             "compared with its mirror, and every law of the statement is evaluated on the real code, exhaustively on short "
-             "multi-byte strings and randomly beyond. Partial: the splitting laws of dir/base, first/trim_first, last/trim_last and the "
-             "closed form of trim_protocol are so far carried by the exhaustive law streams, not yet by theorems.",
+             "extension, mash components / containment / rendering, has* = string containment, concat, parse_paths; the splitting laws on "
+             "arbitrary strings (repeated separators, '.' segments, trailing separators): trim_last / dir drop exactly the last component, "
+             "trim_first exactly the first, base / last / first name that component, dir fails exactly on the empty path and the root; "
+             "trim_protocol in closed form (removes the text up to the first '//' exactly when it is one of the four schemes "
+             "case-insensitively, otherwise returns the path unchanged). Every helper is compared with its mirror, and every law of the "
+             "statement is evaluated on the real code, exhaustively on short multi-byte strings and randomly beyond.",
         note="Trusted: Coq kernel; Base/PathLex.v + Base/Str.v models of std::path / str (validated by the std_* streams); "
              "to_lowercase enters only through ASCII letters; extraction, driver, harness, differ.",
         technique="Coq proof (list/segment lemmas) + exhaustive correspondence + law evaluation on the implementation",
